@@ -71,7 +71,8 @@ def evaluate(sdir, checks, tier, run_tests=True, seeds=(0,)):
         det = {}
         for c in checks:
             for seed in seeds:
-                env = dict(os.environ, VERIF_REPO=patched, VERIF_SEED=str(seed))
+                env = dict(os.environ, VERIF_REPO=patched, VERIF_SEED=str(seed), VERIF_EVIDENCE_DIR=os.path.join(base, "evidence"),
+                           VERIF_REPLAY_DIR=os.path.join(base, "replay"))
                 t0 = time.time()
                 try:
                     r = sh([os.path.join(VERIF, "check"), c, "--tier", tier], env=env, cwd=VERIF, timeout=3600)
